@@ -17,6 +17,7 @@ RULE = (
     "parse_uri!=None, is_curie <=> (delimiter present and prefix known) <=> expand!=None, parse == URI parse else CURIE "
     "parse else None (model decides the side), compress_or_standardize / expand_or_standardize == CURIE / canonical URI of "
     "parse, format_curie joins with the delimiter, compress_strict / expand_strict == strict=True calls. "
+    "Every case is checked on the same converter reached through seven histories (built at once; grown string by string with all queries issued after every mutation; split into whole records and merged; grown by case-insensitive merges; every record re-merged into itself case-insensitively; after calls that must be rejected; as by-standing input of every derivation whose results were then mutated). "
     "Non-trivial = the string is recognised both as URI and as CURIE, or is delimiter-free, or empty; distinct by hash of "
     "(records, delimiter, string)."
 )
